@@ -236,6 +236,7 @@ func followerRun(c *xs.Ctx, r *xs.Result, rec *prodRecord, hist []ops.Op, acts [
 				return
 			}
 			queried = append(queried, fmt.Sprint(f.Height()))
+			r.Add("query_frontiers", fmt.Sprintf("%d momentums/%d", len(rec.Batch), f.Height())) // vacuity guard: the frontiers at which a query was explored, per history length
 		case "X":
 			f.Restart()
 			warm = warm[:0]
